@@ -38,7 +38,9 @@ MANIFEST = dict(
          "tp+tn+fp+fn, which is compared with the implementation, not translated. Not modelled: Dataset/dask inputs, attrs, "
          "autosqueeze bookkeeping (shape only compared), gather_dimensions (C01); infinite data/thresholds are compared but "
          "outside the theorems (|inf-inf| is NaN, so '==' of equal infinities is 0).",
-    technique="Lean 4 theorems over translator-regenerated definitions + differential correspondence + property oracle",
+    technique="Lean 4 theorems over translator-regenerated definitions + differential correspondence + property oracle "
+              "(when the source leaves the translatable subset the generator substitutes the hand-written fallback model "
+              "tools/gen/_fallback_*.lean for that definition, records it as inapplicable, and the correspondence carries it)",
     design="6/C08")
 RULE = ("cases drawn from a dyadic pool with 50 % of data values placed on / within / just outside tolerance of a threshold, "
         "NaN in every slot, all 12 mode spellings, thresholds 0 and negative for the event operator; distinct = distinct "
